@@ -147,11 +147,21 @@ class Heap:
         h.dom, h.val, h.mem = dict(self.dom), dict(self.val), dict(self.mem)
         h.A0, h.n_alloc, h.n_blocks = self.A0, self.n_alloc, self.n_blocks
         h.base = self.base
+        h.generic = None
         if hasattr(self, "block_top"):
             h.block_top = self.block_top
         return h
 
     def alloc(self):
+        gen = getattr(self, "generic", None)
+        if gen is not None:
+            # inside the generic iteration of a summarised comprehension (vf/pyvc/summarise.py): the object created at the
+            # i-th allocation site by the iteration of element x has the reference nr_i(x)
+            tag, x, esort, log = gen
+            f = z3.Function(f"nr!{tag}_{len(log)}", esort, z3.IntSort())
+            r = f(x)
+            log.append((f, r))
+            return r
         r = self.base + self.n_alloc
         self.n_alloc += 1
         return z3.simplify(r)
@@ -701,6 +711,10 @@ class DictRef:
         if attr == "get":
             def get(it, key, default=None):
                 k = self.k(it, key)
+                if k is not None and self.t.vkind == "int" and it.state.get("generic_depth") and _is_atomish(default):
+                    # inside a summarised comprehension nothing may fork on the generic element: if-then-else term
+                    hh = heap_of(it)
+                    return z3.If(hh.d_has(self.t, self.ref, k), hh.d_get(self.t, self.ref, k), _int(default))
                 if k is None or not it.decide(heap_of(it).d_has(self.t, self.ref, k)):
                     return default
                 return self.wrap(it, heap_of(it).d_get(self.t, self.ref, k))
@@ -941,6 +955,8 @@ class SetRef:
             return _native(binop)
         if attr in ("issuperset", "issubset"):
             def rel(it, other):
+                if attr == "issuperset" and isinstance(other, BondVal) and self.t.esort == z3.IntSort():
+                    return z3.And(z3.Select(self.arr(it), other.lo), z3.Select(self.arr(it), other.hi))
                 a, b = self.arr(it), self._other_arr(it, other)
                 x = z3.Const(f"x!sr{it.fresh_id()}", self.t.esort)
                 if attr == "issuperset":
@@ -1209,3 +1225,15 @@ class SymSeq:
 
     def sym_len(self, interp):
         return len(self.sym_iter(interp))
+
+    def sym_to_tuple(self, interp):
+        return self  # immutable snapshot
+
+    def sym_to_set(self, interp):
+        if self.kind != "set":
+            raise OutOfSubset("set(items snapshot)")
+        t = SET_TYPES["iset" if self.esort == z3.IntSort() else "bset"]
+        h = heap_of(interp)
+        r = h.s_new(t)
+        h.s_assign(t, r, self.arr)
+        return SetRef(t, r)
